@@ -16,13 +16,15 @@ both stream kinds, eager and lazy, any stream state, any previous object):
  * `getString_total`: the string reader is safe on every loaded section for EVERY 32-bit index and
    returns a NUL-free run of input bytes inside [0,size);
  * INSPECTION (Model/Inspect.lean = what Driver/Load.lean executes for the ops notes / segnotes / dyn /
-   syms / modinfo / dump):  `inspect_total`: on an object satisfying the loader invariant `ObjInv`
-   (`load_objInv`), input length <= 2^32-3 (`InputBound`, the bound C13's `get_note_total` needs), EVERY
+   syms / modinfo / dump):  `inspect_total`: on an object satisfying `InspInv` = the loader invariant
+   `ObjInv` + valid segment member lists `MembersOk` (`load_inspInv`: `load_objInv` + `load_members`,
+   Lemmas/LoadMembers.lean), input length <= 2^32-3 (`InputBound`, the bound C13's `get_note_total` needs), EVERY
    query -- header/section/segment getters and data, free_data, `str i k`, `noteNum i`/`note i k`,
    `segNoteNum j`/`segNote j k`, `dynNum i`/`dyn i k`, `symNum i`/`sym i k`, `modinfo i`/`modinfoGet i k`/
    `modinfoByName i f`, `validate`, `dump` -- with ARBITRARY section, segment and entry indices returns
-   without a fault and re-establishes `ObjInv`; `inspect_seq_total` / `load_inspect_total`: hence every
-   finite query sequence after every load.  `dump_total`: the read trace of elfio_dump.hpp (symbol tables:
+   without a fault and re-establishes `InspInv`; `inspect_seq_total` / `load_inspect_total`: hence every
+   finite query sequence after every load.  `dump_total`: the read trace of elfio_dump.hpp (segment_headers:
+   `sections[member]` exists for every member of every segment; symbol tables:
    every symbol of every SHT_SYMTAB/DYNSYM section; notes: every note of every SHT_NOTE section and PT_NOTE
    segment incl. every descriptor byte; `.modinfo`; dynamic tags up to DT_NULL; first 64 data bytes of every
    section and segment).  It composes `load_inv`/`getData_inv` with the accessor families' models:
@@ -36,8 +38,8 @@ both stream kinds, eager and lazy, any stream state, any previous object):
  * `LoadedSec.size_lt / resident_facts / rdRange_ok`, `exposes_only_file_bytes`: what the accessor
    families' `*_total` theorems instantiate.
  Remark: `validate` (Model/Validate.lean) is a total pure function — nothing to prove.
-Correspondence only (not in the theorems): the TEXT the dump facility prints and dump::header /
-section_headers / segment_headers (getters; `sections[member index]` of segment_headers is not in the trace);
+Correspondence only (not in the theorems): the TEXT the dump facility prints (dump::header / section_headers /
+segment_header lines are getters only);
 the symbol accessor's constructor (`find_hash_section`, getters only) and the by-name / by-value / hash
 lookups (C09/C18); `ifstream` vs `istringstream` differences.  The theorems are about the checked-memory
 model; the implementation side of memory safety is observed by sanitizers on the generated inputs.
@@ -61,7 +63,8 @@ THEOREMS = ["ElfioVerif.C01.load_total", "ElfioVerif.C01.load_total_anyStream", 
             "ElfioVerif.C01.LoadedSec.size_lt", "ElfioVerif.C01.LoadedSec.resident_facts",
             "ElfioVerif.C01.LoadedSec.rdRange_ok",
             "ElfioVerif.C01.inspect_total", "ElfioVerif.C01.inspect_seq_total", "ElfioVerif.C01.load_inspect_total",
-            "ElfioVerif.C01.dump_total", "ElfioVerif.C01.load_objInv",
+            "ElfioVerif.C01.dump_total", "ElfioVerif.C01.load_objInv", "ElfioVerif.C01.load_inspInv",
+            "ElfioVerif.load_members", "ElfioVerif.Inspect.dumpSegMembers_total",
             "ElfioVerif.Inspect.notes_total", "ElfioVerif.Inspect.dyn_entriesNum_total",
             "ElfioVerif.Inspect.dyn_getEntry_total", "ElfioVerif.Inspect.sym_num_total",
             "ElfioVerif.Inspect.sym_get_total", "ElfioVerif.Inspect.modinfo_total",
